@@ -11,9 +11,10 @@ VERIF = os.path.dirname(os.path.dirname(os.path.abspath(__file__)))
 sd = os.path.abspath(sys.argv[1])
 meta = json.load(open(os.path.join(sd, "meta.json")))
 ids = sys.argv[2:] or [meta["property"]]
-assert subprocess.run(["git", "-C", "/repo", "status", "--porcelain", "--untracked-files=no"], stdout=subprocess.PIPE,
+REPO = os.environ.get("FQE_REPO", "/repo")
+assert subprocess.run(["git", "-C", REPO, "status", "--porcelain", "--untracked-files=no"], stdout=subprocess.PIPE,
                       text=True).stdout.strip() == "", "/repo has uncommitted changes"
-subprocess.run(["git", "-C", "/repo", "apply", os.path.join(sd, "patch.diff")], check=True)
+subprocess.run(["git", "-C", REPO, "apply", os.path.abspath(os.path.join(sd, "patch.diff"))], check=True)
 out = {}
 try:
     for pid in ids:
@@ -22,7 +23,7 @@ try:
         out[pid] = {"exit": r.returncode, "lines": lines[-2:]}
         print(pid, r.returncode, " | ".join(lines[-2:])[:300], flush=True)
 finally:
-    subprocess.run(["git", "-C", "/repo", "checkout", "--", "."], check=True)
+    subprocess.run(["git", "-C", REPO, "checkout", "--", "."], check=True)
     for tr in ("cbits.py", "omp.py", "guards.py", "persist.py", "pyint.py"):
         subprocess.run(["/venv/bin/python", os.path.join(VERIF, "harness", "translate", tr)])
 det = meta.get("detected_by") or {}
